@@ -65,6 +65,18 @@ def matIn (v : Mat Rat) (z : Mat Itv) : Bool :=
 
 def opsExpr (op : String) (ins outs : List String) : Option String :=
   match op, ins, outs with
+  | "vecop", [op, a, b], [r] => do
+    let A ← parseMatItv a
+    let B ← (if b == "-" then some ⟨0, 0, []⟩ else parseMatItv b)
+    if r == "E" then pure "FAIL empty-result-for-non-empty-operands" else
+    let R ← parseMatItv r
+    if R.d.any (fun I => !I.WF) then pure "FAIL result-not-well-formed" else
+    if VecOps.vecopOk op A B R then
+      let tight := match op with
+        | "mul" => (List.range A.r).all fun i => (List.range B.c).all fun j => R.get? i j == some (VecOps.dotX (A.row i) (B.col j))
+        | _ => false
+      pure (if tight then s!"ok {op} exact-range" else s!"ok {op} encloses-exact-range")
+    else pure s!"FAIL {op}-result-does-not-contain-the-exact-range"
   | "evalfork", [what], [res] =>
     pure (if res == "EXIT0" then s!"ok evaluated-{what}" else s!"FAIL evaluation-of-{what}-ends-with-{res}")
   | "evalpt", [dag, pt], [z] => do
